@@ -9,13 +9,23 @@ use std::path::PathBuf;
 
 pub fn image(len: usize, seed: u64) -> Vec<u8> {
     let mut rng = Rng::new(seed);
-    let mode = seed % 4;
+    let mode = seed % 8;
+    let special = [0x0au8, 0x0d, 0x3a, 0x00, 0xff, 0x20];
+    let hole = if len > 0 { rng.below(len as u64) as usize } else { 0 };
+    let row_kind: Vec<u64> = (0..(len / 16 + 1)).map(|_| rng.below(4)).collect();
     (0..len)
         .map(|i| match mode {
             0 => rng.next() as u8,
             1 => (i % 251) as u8,
             2 => 0xff,
-            _ => if rng.below(8) == 0 { 0 } else { rng.next() as u8 },
+            3 => if rng.below(8) == 0 { 0 } else { rng.next() as u8 },
+            4 => 0x00,
+            // whole 16-byte rows of 0xff / 0x00 between rows of data (erased flash, blank records)
+            5 => match row_kind[i / 16] { 0 => 0xff, 1 => 0x00, _ => rng.next() as u8 },
+            // bytes that mean something in the text form: LF, CR, ':', blank
+            6 => special[rng.below(special.len() as u64) as usize],
+            // erased image with a single programmed byte
+            _ => if i == hole { 0x42 } else { 0xff },
         })
         .collect()
 }
@@ -34,6 +44,15 @@ pub fn main(args: &[String]) -> i32 {
         std::fs::write(dir.join(format!("{}.bin", i)), &img).unwrap();
         let out = dir.join(format!("{}.hex", i));
         let _ = std::fs::remove_file(&out);
+        if i % 3 == 1 {
+            // the file exists already and is longer than what will be written (an earlier, bigger image)
+            let mut old = String::new();
+            for _ in 0..(len / 8 + 40) {
+                old.push_str(":10001000FFEEDDCCBBAA99887766554433221100F8\r\n");
+            }
+            old.push_str(":00000001FF\r\n");
+            std::fs::write(&out, old).unwrap();
+        }
         let code = f[0] == "code";
         let br = BuildResult {
             code: if code { img.clone() } else { vec![] },
@@ -56,10 +75,28 @@ pub fn main(args: &[String]) -> i32 {
             Ok(Ok(())) => {}
             Ok(Err(_)) => {
                 let _ = std::fs::remove_file(&out);
+        if i % 3 == 1 {
+            // the file exists already and is longer than what will be written (an earlier, bigger image)
+            let mut old = String::new();
+            for _ in 0..(len / 8 + 40) {
+                old.push_str(":10001000FFEEDDCCBBAA99887766554433221100F8\r\n");
+            }
+            old.push_str(":00000001FF\r\n");
+            std::fs::write(&out, old).unwrap();
+        }
                 std::fs::write(dir.join(format!("{}.outcome", i)), "err").unwrap();
             }
             Err(_) => {
                 let _ = std::fs::remove_file(&out);
+        if i % 3 == 1 {
+            // the file exists already and is longer than what will be written (an earlier, bigger image)
+            let mut old = String::new();
+            for _ in 0..(len / 8 + 40) {
+                old.push_str(":10001000FFEEDDCCBBAA99887766554433221100F8\r\n");
+            }
+            old.push_str(":00000001FF\r\n");
+            std::fs::write(&out, old).unwrap();
+        }
                 std::fs::write(dir.join(format!("{}.outcome", i)), "panic").unwrap();
             }
         }
